@@ -203,6 +203,12 @@ int write_srec(Memory *memory, FILE *out, int srec_size)
       fprintf(out, "S705%08x%02x\n", entry_point, checksum);
     }
   }
+    else
+  {
+    // An S-record file ends with a termination record even when the
+    // program has no entry point.
+    fprintf(out, "S9030000fc\n");
+  }
 
   return 0;
 }
